@@ -88,8 +88,20 @@ def readable (objects : List Str) (r : Rev) : Bool := r.isSpecial || objects.con
 def changesReadable (objects : List Str) (cs : List Change) : Bool :=
   cs.all (fun c => readable objects c.rev && (match c.parent with | some p => readable objects p | none => true))
 
+/-- the loop over the parents inside `check_delta`: left to right, stopping at the first failure;
+    `chk` is the recursive call -/
+def checkParentsWith (chk : List (Block × Status) → BlockId → List (Block × Status) × Status) :
+    List (Block × Status) → List BlockId → List (Block × Status) × Bool
+  | ds, [] => (ds, true)
+  | ds, p :: ps =>
+    match findDelta ds p with
+    | none => (ds, false)
+    | some _ =>
+      let r := chk ds p
+      if r.2 = .ready ∨ r.2 = .applied then checkParentsWith chk r.1 ps else (r.1, false)
+
 /-- `check_delta`, with the memoised recursion into the parents. Fuel bounds the recursion depth
-    (parents have smaller indices, so `index + 1` suffices: `Props.C02.checkDelta_fuel`). -/
+    (parents have smaller indices, so `index + 1` suffices: `Props.C02.checkDelta_spec`). -/
 def checkDelta (v : View) (objects : List Str) : Nat → List (Block × Status) → BlockId → List (Block × Status) × Status
   | 0, ds, _ => (ds, .blocked)
   | fuel + 1, ds, id =>
@@ -98,20 +110,11 @@ def checkDelta (v : View) (objects : List Str) : Nat → List (Block × Status) 
     | some (b, st) =>
       if st ≠ .pending then (ds, st)
       else
-        -- parents, left to right, stopping at the first failure
-        let rec parentsLoop (ds : List (Block × Status)) : List BlockId → List (Block × Status) × Bool
-          | [] => (ds, true)
-          | p :: ps =>
-            match findDelta ds p with
-            | none => (ds, false)
-            | some _ =>
-              let (ds', ps') := checkDelta v objects fuel ds p
-              if ps' = .ready ∨ ps' = .applied then parentsLoop ds' ps else (ds', false)
-        let (ds1, okParents) := parentsLoop ds b.parents
-        if !okParents then (setStatus ds1 id .blocked, .blocked)
-        else if !(b.packs.all (fun k => (v.loadPack k).isSome)) then (setStatus ds1 id .blocked, .blocked)
-        else if !(changesReadable objects b.changes) then (setStatus ds1 id .blocked, .blocked)
-        else (setStatus ds1 id .ready, .ready)
+        let r := checkParentsWith (checkDelta v objects fuel) ds b.parents
+        if !r.2 then (setStatus r.1 id .blocked, .blocked)
+        else if !(b.packs.all (fun k => (v.loadPack k).isSome)) then (setStatus r.1 id .blocked, .blocked)
+        else if !(changesReadable objects b.changes) then (setStatus r.1 id .blocked, .blocked)
+        else (setStatus r.1 id .ready, .ready)
 
 /-- `mark_valid_deltas`: check every pending block, in map order -/
 def markValid (v : View) (objects : List Str) (fuel : Nat) (ds : List (Block × Status)) : List (Block × Status) :=
@@ -154,15 +157,23 @@ deriving DecidableEq
 
 def hasStaging (st : PState) : Bool := st.docs.any (fun p => p.2.staging)
 
+/-- load the listed blocks that are not yet in the map, as `pending`
+    (`deltas.insert` of a block that is already present re-inserts the same value: skipped here) -/
+def loadFold (v : View) (init : List (Block × Status)) : List (Block × Status) :=
+  v.blockIds.foldl (fun acc id =>
+    match findDelta acc id with
+    | some _ => acc
+    | none => match v.fetch id with
+      | some b => insertDelta b .pending acc
+      | none => acc) init
+
 /-- `Melda::reload` -/
 def reload (st : PState) (v : View) : Except PErr PState :=
   if st.hasStaging then .error .stageNotEmpty
   else match loadPacks v [] v.packNames [] [] with
     | none => .error .storage
     | some (objs, applied) =>
-      let ds := v.blockIds.foldl (fun acc id => match v.fetch id with
-        | some b => insertDelta b .pending acc
-        | none => acc) []
+      let ds := loadFold v []
       let ds := markValid v objs (maxIndex ds + 1) ds
       .ok (validateAll (applyReady { deltas := ds, docs := [], objects := objs, appliedPacks := applied }))
 
@@ -172,12 +183,7 @@ def refresh (st : PState) (v : View) : Except PErr PState :=
   else match loadPacks v st.appliedPacks v.packNames st.objects st.appliedPacks with
     | none => .error .storage
     | some (objs, applied) =>
-      let ds := v.blockIds.foldl (fun acc id =>
-        match findDelta acc id with
-        | some _ => acc
-        | none => match v.fetch id with
-          | some b => insertDelta b .pending acc
-          | none => acc) st.deltas
+      let ds := loadFold v st.deltas
       let ds := ds.map (fun p => if p.2 = .blocked then (p.1, .pending) else p)
       let ds := markValid v objs (maxIndex ds + 1) ds
       .ok (validateAll (applyReady { st with deltas := ds, objects := objs, appliedPacks := applied }))
@@ -202,9 +208,7 @@ def reloadUntil (st : PState) (v : View) (anchors : List BlockId) : Except PErr 
   else match loadPacks v [] v.packNames [] [] with
     | none => .error .storage
     | some (objs, applied) =>
-      let ds := v.blockIds.foldl (fun acc id => match v.fetch id with
-        | some b => insertDelta b .pending acc
-        | none => acc) []
+      let ds := loadFold v []
       let ds := markValid v objs (maxIndex ds + 1) ds
       match anchors.find? (fun a => (findDelta ds a).isNone) with
       | some a => .error (.notFound a)
